@@ -64,7 +64,7 @@ func VerifHarness_C02_tcp_inbound() {
 
 // Manager.Close (server shutdown): every allocation's resources are released exactly once.
 //
-//verif:props=C15 unwind=20 bounds="manager with one UDP and one TCP allocation, each with a permission; Close, then Close again"
+//verif:props=C15,C18,C09 unwind=20 bounds="manager with one UDP and one TCP allocation, each with a permission; Close, then Close again; then an Allocate still in flight on a connection accepted before the shutdown"
 func VerifHarness_C15_manager_close() {
 	env := VNewManager(false, false)
 	m := env.M
@@ -91,5 +91,9 @@ func VerifHarness_C15_manager_close() {
 	vAssert(vAnd(env.Relays[0].Closed == 1, env.Listeners[0].Closed == 1), "C15.second_close_releases_nothing_again")
 	vAssert(env.Ev.PermDeleted == 2, "C15.second_close_emits_no_event")
 	vAssert(vLocksHeld() == 0, "C18.manager_close_leaves_no_lock_held")
+	// a TCP/TLS connection accepted before the shutdown keeps serving requests with this manager: an Allocate
+	// arriving now must be handled (granted or refused), not crash the process
+	_, _ = m.CreateAllocation(VFiveTuple(), &VPacketConn{Name: "turnC"}, proto.ProtoUDP, 0, 600*time.Second, "u3", "realm", proto.RequestedFamilyIPv4)
+	vAssert(vLocksHeld() == 0, "C18.request_after_close_leaves_no_lock_held")
 	vReach("end")
 }
